@@ -124,6 +124,14 @@ def run(ctx):
         compare(ctx, c['input'][0], c['input'][1])
     if ctx.model.available:
         sub = texts[: ctx.n(400, 6000)]
+        # both spellings of a script show the splitter the same views of their significant tokens (hypothesis of split_view_invariant, up to whitespace tokens)
+        outs = ctx.model.ask(['views ' + hexs(t) for t in sub])
+        bad = 0
+        for i in range(0, len(outs) - 1, 2):
+            if outs[i] != outs[i + 1]:
+                bad += 1
+                ctx.mismatch('DOMAIN(view)', [sub[i], sub[i + 1]], outs[i + 1][:200], outs[i][:200])
+        ctx.stream('DOMAIN(view)', inputs=len(outs) // 2, lines=len(outs))
         streams.s_lex(ctx, sub)
         streams.s_split(ctx, sub)
         if hasattr(streams, 's_tree'):
